@@ -182,7 +182,13 @@ def _declare(spec, which, prefix, tree):
                 kwargs['valid_type'] = TYPES[sub['valid_type']]
             if sub.get('help') is not None:
                 kwargs['help'] = sub['help']
-            getattr(spec, which + '_namespace')(path, **kwargs)
+            if sub.get('implicit'):
+                pass  # never declared itself: created with the constructor defaults by the declaration of what it holds
+            elif sub.get('via') == 'create':
+                # declared with its full nested name on the top-level namespace (its parents may not exist yet)
+                (spec.inputs if which == 'input' else spec.outputs).create_port_namespace(path, **kwargs)
+            else:
+                getattr(spec, which + '_namespace')(path, **kwargs)
             _declare(spec, which, path + spec.namespace_separator, sub)
         else:
             kwargs = {'required': sub['required'], 'validator': VALIDATORS[sub['validator']]}
